@@ -458,9 +458,48 @@ AMBIENT = [
 ]
 
 
+NUM_OPERANDS = ['0', '1', '2.5', '-2.5', '0.1', '3', '7', '1e0', '1.5e300', '1e-300', "xs:float('1.5')",
+                '1234567890123456789012345678.45', '0.1234567890123456789012345678901234',
+                '123456789012345678901234567890.55', '-99999999999999999999999999999.5', '1e28', '1.0e-28',
+                "xs:decimal('79228162514264337593543950335')", "xs:double('INF')", "xs:double('NaN')"]
+NUM_PRECISIONS = ['-30', '-2', '0', '1', '2', '27', '28', '30', '99']
+NUM_UNARY = ['round(%s)', 'round-half-to-even(%s)', 'abs(%s)', 'floor(%s)', 'ceiling(%s)', '-(%s)', 'xs:decimal(%s)',
+             'xs:integer(%s)', 'string(%s)', 'number(%s)', "format-number(%s, '#,##0.00')", "format-number(%s, '0.0e0')",
+             'math:sqrt(%s)', 'sum((%s, 1))', 'avg((%s, 0.5))', 'max((%s, 1))', "format-integer(%s, '1')", 'xs:float(%s)']
+NUM_BINARY = ['%s + %s', '%s - %s', '%s * %s', '%s div %s', '%s idiv %s', '%s mod %s', '%s eq %s', '%s lt %s',
+              'math:pow(%s, %s)']
+
+
+def ambient_matrix(rng, n):
+    """generated numeric corpus for the decimal-context / ambient monitor: every rounding function x every operand x
+    every precision, every unary form x operand, and a sample of the binary forms"""
+    exprs = []
+    for f in ('round', 'round-half-to-even'):
+        for a in NUM_OPERANDS:
+            for p in NUM_PRECISIONS:
+                exprs.append('%s(%s, %s)' % (f, a, p))
+    for u in NUM_UNARY:
+        for a in NUM_OPERANDS:
+            exprs.append(u % a)
+    for _ in range(n):
+        exprs.append(rng.choice(NUM_BINARY) % (rng.choice(NUM_OPERANDS), rng.choice(NUM_OPERANDS)))
+    return exprs
+
+
+def first_name(expr):
+    import re
+    m = re.match(r'\s*-?\(?([a-zA-Z][\w:-]*)\(', expr)
+    if m:
+        return m.group(1)
+    m = re.search(r' (\+|-|\*|div|idiv|mod|eq|lt) ', expr)
+    return 'operator ' + m.group(1) if m else 'expr'
+
+
 def run_ambient(case, out):
+    import random as _random
     base_dec = dec_snapshot()
     base_env = dict(os.environ)
+    base_rnd = _random.getstate()
     root = ET.XML('<a xml:lang="en">t</a>')
     with Instrumented(None) as ins:
         base_lc = ins.lc_collate()
@@ -468,17 +507,23 @@ def run_ambient(case, out):
             for ver in ('2.0', '3.1'):
                 try:
                     res = call(elementpath.select, root, expr, parser=PARSERS[ver])
+                    out.dim('ambient_function', first_name(expr))
                 except SelfDeadlock:
                     out.fail('C19/lock/held-by-earlier-evaluation/ambient', expr)
                     ins.lock.force_release()
                     continue
                 out.dim('ambient_outcome', res[0])
                 if dec_snapshot() != base_dec:
-                    out.fail('C19/decimal-context-changed/%s' % res[0], '%s (%s): %r -> %r' % (expr, ver, base_dec, dec_snapshot()))
+                    out.fail('C19/decimal-context-changed/%s/%s' % (res[0], first_name(expr)),
+                             '%s (%s): %r -> %r' % (expr, ver, base_dec, dec_snapshot()))
                     decimal.setcontext(decimal.Context(prec=base_dec[0], rounding=base_dec[1], Emin=base_dec[2],
                                                        Emax=base_dec[3], capitals=base_dec[4], clamp=base_dec[5]))
                 if dict(os.environ) != base_env:
                     out.fail('C19/environ-changed/%s' % res[0], expr)
+                if _random.getstate() != base_rnd:
+                    # the host application's random module state is process-global state too
+                    out.fail('C19/global-random-state-changed/%s' % first_name(expr), expr)
+                    base_rnd = _random.getstate()
                 if ins.lc_collate() != base_lc:
                     out.fail('C19/locale/LC_COLLATE-not-restored/ambient', expr)
                 if ins.lock.locked():
@@ -489,7 +534,7 @@ def run_ambient(case, out):
 
 # ------------------------------------------------------------------ threads (child process, cold caches)
 THREAD_CHILD = r'''
-import sys, json, threading, hashlib
+import sys, json, threading, hashlib, locale
 sys.path.insert(0, %(repo)r)
 sys.setswitchinterval(1e-6)
 import xml.etree.ElementTree as ET
@@ -515,6 +560,7 @@ def one(expr):
         return 'EXC:' + type(e).__name__
 results = {}
 errors = []
+lc_before = locale.setlocale(locale.LC_COLLATE)
 if spec['mode'] == 'sequential':
     for k, expr in enumerate(WORK):
         results[k] = [one(expr) for _ in range(spec['rounds'])]
@@ -534,7 +580,8 @@ else:
     for t in ts: t.join(120)
     if any(t.is_alive() for t in ts):
         errors.append('thread still alive after 120 s')
-print(json.dumps({'results': {str(k): v for k, v in results.items()}, 'errors': errors}))
+print(json.dumps({'results': {str(k): v for k, v in results.items()}, 'errors': errors,
+                  'lc_before': lc_before, 'lc_after': locale.setlocale(locale.LC_COLLATE)}))
 '''
 
 THREAD_WORK = [
@@ -548,6 +595,14 @@ THREAD_WORK = [
     "matches('Ab', '[\\p{Lu}-[B]]\\P{Lu}')", "string-join(for $i in 1 to 20 return string($i * $i), ',')",
     "random-number-generator(42)?number", "random-number-generator(42)?next()?number",
     "head(random-number-generator('s')?permute(1 to 10))",
+]
+# evaluations that switch the process locale (a collation backed by an installed locale): two of them in different
+# threads contend for LC_COLLATE; whatever the interleaving the locale must be back to its initial value at the end
+LOCALE_WORK_FROM = len(THREAD_WORK)
+THREAD_WORK += [
+    "compare('a', 'B', 'C.utf8')", "sort(('b', 'a', 'C', 'é', 'z', 'B', 'y', 'x'), 'C.utf8')",
+    "distinct-values(('a', 'A', 'b', 'a'), 'C.utf8')", "contains-token('a b c', 'B', 'C.utf8')",
+    "index-of(('a', 'b', 'a'), 'a', 'C.utf8')", "max(('a', 'b', 'B'), 'C.utf8')",
 ]
 
 
@@ -570,6 +625,11 @@ def run_threads(case, out):
         data = json.loads(p.stdout.strip().splitlines()[-1])
         if data['errors']:
             out.fail('C19/threads/worker-error', str(data['errors'][:2]))
+        out.dim('thread_locale_checks', mode)
+        if data.get('lc_after') != data.get('lc_before'):
+            out.fail('C19/threads/LC_COLLATE-not-restored/%s' % mode,
+                     'LC_COLLATE was %r before the workload and %r after all workers finished (%s)' % (
+                         data.get('lc_before'), data.get('lc_after'), work))
         if mode == 'sequential':
             base = data['results']
             for k, vals in base.items():
@@ -617,6 +677,10 @@ def run(h):
         h.case('env', {'token': str(h.seed), 'exprs': AMBIENT[:20]}, cpu=120)
         h.case('entity', {'token': str(h.seed)}, cpu=120)
         h.case('ambient', {'exprs': AMBIENT}, cpu=300)
+    mat = ambient_matrix(r, h.n(400))
+    mine = mat[h.shard::h.nshards] if h.nshards > 1 else mat
+    for i in range(0, len(mine), 40):
+        h.case('ambient', {'exprs': mine[i:i + 40]}, cpu=300)
     # fault enumeration: every configuration x every history of length <= 3 over the call kinds
     hist = []
     for n in (1, 2, 3):
@@ -635,6 +699,10 @@ def run(h):
         work = [r.randrange(len(THREAD_WORK)) for _ in range(n)]
         if t % 2 == 0:
             work[0] = work[-1]     # two threads on the same expression text (own Selector each)
+        if t % 3 != 2:
+            # at least two workers that switch LC_COLLATE
+            for slot in r.sample(range(n), min(n, r.choice([2, 2, 3]))):
+                work[slot] = r.randrange(LOCALE_WORK_FROM, len(THREAD_WORK))
         h.case('threads', {'work': work, 'rounds': r.choice([20, 40])}, cpu=600)
 
 
